@@ -81,11 +81,11 @@ def cases(tier, seed):
         yield {"mode": "hist", "bins": bins, "density": dens, "mapped": mapped,
                "nan": nanp}
     # heat map
-    for pal, grid, agg, nanp in itertools.product(
+    for pal, grid, agg, nanp, layout in itertools.product(
             (None, "viridis"), (None, "row", "col", "both"), (False, True),
-            ("none", "point")):
+            ("none", "point"), ("yx23", "xy23", "xy33", "yx33")):
         yield {"mode": "heat", "palette": pal, "grid": grid, "agg": agg,
-               "nan": nanp}
+               "nan": nanp, "layout": layout}
 
 
 def worker_init():
@@ -508,15 +508,21 @@ def check_heat(case):
     nr = 2 if grid in ("row", "both") else 1
     nc = 2 if grid in ("col", "both") else 1
     na = 2 if case["agg"] else 1
-    z = np.empty((2, 3, nr, nc, na))
+    layout = case.get("layout", "yx23")
+    ny, nx = (3, 3) if layout.endswith("33") else (2, 3)
+    z = np.empty((ny, nx, nr, nc, na))
     for idx in np.ndindex(*z.shape):
         z[idx] = 1.0 + idx[1] + 10 * idx[0] + 100 * idx[2] + 1000 * idx[3] \
             + 0.5 * idx[4]
     if case["nan"] == "point":
         z[0, 1] = np.nan
+    xs_, ys_ = [1.0, 2.0, 3.0][:nx], [10.0, 20.0, 30.0][:ny]
     ds = xr.Dataset({"zz": (("yy", "xx", "r", "c", "rep"), z)},
-                    coords={"xx": [1.0, 2.0, 3.0], "yy": [10.0, 20.0],
+                    coords={"xx": xs_, "yy": ys_,
                             "r": [5, 6][:nr], "c": ["u", "v"][:nc]})
+    if layout.startswith("xy"):
+        # the variable is stored with x before y
+        ds = ds.transpose("xx", "yy", "r", "c", "rep")
     if nr == 1:
         ds = ds.isel(r=0, drop=True)
     if nc == 1:
@@ -548,6 +554,7 @@ def check_heat(case):
         vio.append((key("panels"), "axes grid %r, expected %r"
                     % (axs.shape, (nr, nc))))
         return fin(case, vio)
+    colour_of = {}
     for (i, j), ax in np.ndenumerate(axs):
         meshes = [c for c in ax.collections if type(c).__name__ == "QuadMesh"]
         if len(meshes) != 1:
@@ -557,15 +564,14 @@ def check_heat(case):
         want = np.nanmedian(z[:, :, i, j, :], axis=-1)
         co = meshes[0].get_coordinates()
         xe, ye = co[0, :, 0], co[:, 0, 1]
-        if len(xe) != 4 or len(ye) != 3 or not all(
-                xe[n] < [1.0, 2.0, 3.0][n] < xe[n + 1] for n in range(3)) \
-                or not all(ye[n] < [10.0, 20.0][n] < ye[n + 1]
-                           for n in range(2)):
+        if len(xe) != nx + 1 or len(ye) != ny + 1 or not all(
+                xe[n] < xs_[n] < xe[n + 1] for n in range(nx)) \
+                or not all(ye[n] < ys_[n] < ye[n + 1] for n in range(ny)):
             vio.append((key("mesh-coords"), "cells %r x %r do not enclose the "
                         "coordinates" % (xe.tolist(), ye.tolist())))
         arr = np.asarray(meshes[0].get_array())
         if case["palette"]:
-            got = np.ma.masked_invalid(np.asarray(arr, float).reshape(2, 3))
+            got = np.ma.masked_invalid(np.asarray(arr, float).reshape(ny, nx))
             w = np.ma.masked_invalid(want)
             if not (np.array_equal(np.ma.getmaskarray(got),
                                    np.ma.getmaskarray(w))
@@ -573,15 +579,22 @@ def check_heat(case):
                 vio.append((key("values"), "panel %r mesh %r, data %r"
                             % ((i, j), got.tolist(), w.tolist())))
         else:
-            cols = arr.reshape(2, 3, -1)
+            cols = arr.reshape(ny, nx, -1)
             nanc = np.isnan(want)
-            for a, b in itertools.product(range(2), range(3)):
+            for a, b in itertools.product(range(ny), range(nx)):
                 if nanc[a, b] and not np.allclose(cols[a, b],
                                                   (0.5, 0.5, 0.5, 0.5)):
                     vio.append((key("missing-colour"), "missing cell not grey"))
             flat = [(round(float(want[a, b]), 6), tuple(np.round(cols[a, b], 6)))
-                    for a, b in itertools.product(range(2), range(3))
+                    for a, b in itertools.product(range(ny), range(nx))
                     if not nanc[a, b]]
+            # the same value must get the same colour in every panel: compare
+            # with the first panel's mapping
+            for v, c in flat:
+                if colour_of.setdefault(v, c) != c:
+                    vio.append((key("colours"), "value %r drawn in two "
+                                "colours" % v))
+                    break
             if len({c for _, c in flat}) != len({v for v, _ in flat}):
                 vio.append((key("colours"), "distinct values do not map to "
                             "distinct colours: %r" % flat))
